@@ -67,7 +67,13 @@ var c11SVGSeeds = []string{
 
 func genC11ParsePath(r *core.Rng) any {
 	var s string
-	switch r.Intn(7) {
+	switch r.Intn(9) {
+	case 7, 8: // valid path data cut off at an arbitrary byte: the input ends where anything may be expected
+		full := genC11ParseValid(r).(*c11Case).S
+		s = full[:r.Intn(len(full)+1)]
+		if r.Chance(0.3) {
+			s += core.PickS(r, []string{" ", ",", "\n", " , "})
+		}
 	case 0: // grammar based
 		var sb strings.Builder
 		for i, n := 0, r.IntRange(1, 12); i < n; i++ {
